@@ -70,6 +70,104 @@ func txReceiver(call ssa.CallInstruction) ssa.Value {
 	return nil
 }
 
+// txFinisher: g(tx store.Tx, perr *error) ends a transaction according to *perr:
+// tx.Commit() is called only when *perr is nil and its result is stored into
+// *perr, and tx.Rollback() is reachable when *perr is not nil.
+func (c *Ctx) txFinisher(g *ssa.Function) (txIdx, errIdx int, ok bool) {
+	txIdx, errIdx = -1, -1
+	if g == nil || len(g.Blocks) == 0 {
+		return
+	}
+	for i, p := range g.Params {
+		if c.libNamedIs(p.Type(), "store", "Tx") {
+			txIdx = i
+		}
+		if pt, isP := p.Type().(*types.Pointer); isP && isErrorType(pt.Elem()) {
+			errIdx = i
+		}
+	}
+	if txIdx < 0 || errIdx < 0 {
+		return
+	}
+	perr := g.Params[errIdx]
+	isLoadOfErr := func(x ssa.Value) bool {
+		u, isU := x.(*ssa.UnOp)
+		return isU && u.Op == token.MUL && u.X == ssa.Value(perr)
+	}
+	commitOK, rollback := false, false
+	allCalls(g, func(ci ssa.CallInstruction) {
+		if txReceiver(ci) != ssa.Value(g.Params[txIdx]) {
+			return
+		}
+		if c.isRollback(ci) {
+			if !guardedBy(g, ci.Block(), nilEdges(g, isLoadOfErr)) {
+				rollback = true
+			}
+		}
+		if cl, isCall := ci.(*ssa.Call); isCall && c.isCommit(cl) {
+			stored := false
+			for _, r := range realReferrers(cl) {
+				if st, isSt := r.(*ssa.Store); isSt && st.Addr == ssa.Value(perr) && st.Val == ssa.Value(cl) {
+					stored = true
+				}
+			}
+			if stored && guardedBy(g, cl.Block(), nilEdges(g, isLoadOfErr)) {
+				commitOK = true
+			}
+		}
+	})
+	ok = commitOK && rollback
+	return
+}
+
+// finishedBy: the transaction tx opened in fn is ended by a deferred finisher
+// that is given the address of fn's own named error result, which every return
+// of fn delivers. Returns the defer.
+func (c *Ctx) finishedBy(fn *ssa.Function, tx ssa.Value) *ssa.Defer {
+	for _, r := range realReferrers(tx) {
+		d, ok := r.(*ssa.Defer)
+		if !ok {
+			continue
+		}
+		g := staticCallee(d)
+		if g == nil {
+			continue
+		}
+		ti, ei, isFin := c.txFinisher(c.declared(g))
+		if !isFin || ti >= len(d.Call.Args) || ei >= len(d.Call.Args) || d.Call.Args[ti] != tx {
+			continue
+		}
+		al, isAl := d.Call.Args[ei].(*ssa.Alloc)
+		if !isAl {
+			continue
+		}
+		// al is the named error result: every return reads it back after the deferred calls ran
+		eidx := errResultIndex(fn.Signature)
+		if eidx < 0 || fn.Signature.Results().At(eidx).Name() == "" {
+			continue
+		}
+		all := true
+		n := 0
+		for _, b := range fn.Blocks {
+			for _, in := range b.Instrs {
+				ret, isRet := in.(*ssa.Return)
+				if !isRet || eidx >= len(ret.Results) {
+					continue
+				}
+				n++
+				u, isU := ret.Results[eidx].(*ssa.UnOp)
+				if !isU || u.Op != token.MUL || u.X != ssa.Value(al) {
+					all = false
+				}
+			}
+		}
+		if all && n > 0 {
+			return d
+		}
+	}
+	return nil
+}
+
 // ---------------------------------------------------------------- TX1
 
 func ruleTX1(c *Ctx) []Ob {
@@ -97,6 +195,48 @@ func ruleTX1(c *Ctx) []Ob {
 			}
 		}
 		if len(defers) == 0 {
+			if fd := c.finishedBy(op.Fn, op.Tx); fd != nil {
+				bad := ""
+				isBeginErr := func(x ssa.Value) bool {
+					if x == op.Err {
+						return true
+					}
+					for _, og := range origins(x) {
+						if og == op.Err {
+							return true
+						}
+					}
+					return false
+				}
+				if hasErr && !guardedBy(op.Fn, fd.Block(), nilEdges(op.Fn, isBeginErr)) {
+					bad = "the deferred finisher is not on the err == nil continuation of Begin"
+				}
+				for _, r := range realReferrers(op.Tx) {
+					if r != ssa.Instruction(fd) && !instrDominates(fd, r) {
+						bad = fmt.Sprintf("transaction used at %s before the finisher is deferred", relPath(c, r.Pos()))
+					}
+				}
+				if bad != "" {
+					o.add(VIOLATED, key, pos, "%s", bad)
+				} else {
+					o.add(OK, key, pos, "Begin error tested; a deferred finisher bound to the function's named error result rolls back on error and commits otherwise")
+				}
+				continue
+			}
+			unbound := false
+			for _, r := range realReferrers(op.Tx) {
+				if d, ok := r.(*ssa.Defer); ok {
+					if g := staticCallee(d); g != nil {
+						if _, _, isFin := c.txFinisher(c.declared(g)); isFin {
+							unbound = true
+						}
+					}
+				}
+			}
+			if unbound {
+				o.add(VIOLATED, key, pos, "the deferred finisher is given the address of a variable that is not the function's named error result: `return x` does not assign it, so the finisher sees nil and COMMITS while the function returns an error (and the outcome of Commit is lost)")
+				continue
+			}
 			o.add(VIOLATED, key, pos, "no `defer tx.Rollback()` on the transaction opened here: an early return leaks it (a leaked bbolt write transaction blocks every later writer)")
 			continue
 		}
@@ -256,6 +396,10 @@ func ruleTX2(c *Ctx) []Ob {
 		key := c.fname(fn)
 		if errIdx < 0 {
 			o.add(UNDECIDED, key+"/signature", relPath(c, fn.Pos()), "write-transaction opener has no error result: commit outcome cannot be reported")
+			continue
+		}
+		if fd := c.finishedBy(fn, op.Tx); fd != nil {
+			o.add(OK, key+"/deferred finisher", relPath(c, fd.Pos()), "every return delivers the named error result after the deferred finisher ran: it commits exactly when that result is nil and replaces it by the outcome of Commit")
 			continue
 		}
 		// forward may-analysis: has a store write happened?
